@@ -34,13 +34,18 @@ def _flat(arrs):
 
 
 def h_explicit(ctx, prog, mode):
-    P = LIBRARY[prog]()
+    explicit_totals(ctx, LIBRARY[prog], mode)
+
+
+def explicit_totals(ctx, make, mode, after_run=None):
+    """shared with C08/C24: `make()` returns a fresh Prog; checks responses and totals of the built problem"""
+    P = make()
     # inexact float constants on the path: unit factors, and 1.0/(ref-ref0) of the reverse-mode input scaling
     tol = 1e-9 if (P.uses_units() or any('ref' in f for f in P.features)) else 0
 
     def run(delta=None):
         # (a Prog instance is built once: the finite-difference reruns of the float replay use fresh instances)
-        p = (P if delta is None else LIBRARY[prog]()).build(ctx, mode=mode)
+        p = (P if delta is None else make()).build(ctx, mode=mode)
         if delta is None:
             vals = P.set_indeps(ctx, p)
         else:
@@ -55,6 +60,8 @@ def h_explicit(ctx, prog, mode):
         p.run_model()
         return p, vals
     p, base = run()
+    if after_run is not None:
+        after_run(P, p, base)
     outs = [p.get_val(o) for o in P.ofs]
     wrt_names = [v.abs for v in P.indeps if v.abs in P.wrts]
     assert wrt_names == P.wrts, (wrt_names, P.wrts)
@@ -143,6 +150,9 @@ def h_implicit(ctx, prog, mode):
             rp, _ = refeval(s, a + e); rm, _ = refeval(s, a - e)
             dRda[:, j] = (rp - rm) / (2 * h)
     lhs = dRds.dot(Js) + dRda
-    ctx.eq('implicit_function_identity', lhs, np.zeros((ns, na)) if not ctx.sym else ctx.zeros((ns, na)), 0 if ctx.sym else 1e-5)
-    ctx.eq('response_chain', Jf, dfds.dot(Js), 0 if ctx.sym else 1e-5)
+    # exact: the scaled implicit programs use scaling constants whose reciprocals are exact in binary floating point, and a
+    # margin on these rational identities (division by the symbolic determinant) would push z3 into nonlinear search
+    stol = 0
+    ctx.eq('implicit_function_identity', lhs, np.zeros((ns, na)) if not ctx.sym else ctx.zeros((ns, na)), stol if ctx.sym else 1e-5)
+    ctx.eq('response_chain', Jf, dfds.dot(Js), stol if ctx.sym else 1e-5)
     ctx.observe('J', J)
